@@ -20,6 +20,7 @@ type cliHead struct {
 	Prior  string `json:"prior"`
 	ToFile bool   `json:"toFile"`
 	Fault  string `json:"fault"`
+	Names  string `json:"names"`
 }
 
 var dateRe = regexp.MustCompile(`"dateCreated": "([^"]*)"`)
@@ -91,6 +92,12 @@ func implCli(h caseHead, raw []byte) map[string]any {
 	}
 	defer os.RemoveAll(dir)
 	pf, df, of := filepath.Join(dir, "p.yaml"), filepath.Join(dir, "d.jsonld"), filepath.Join(dir, "out.json")
+	switch ch.Names {
+	case "dollar":
+		pf, df, of = filepath.Join(dir, "p$ACV_X.yaml"), filepath.Join(dir, "d${ACV_X}.jsonld"), filepath.Join(dir, "out$ACV_X.json")
+	case "spaces":
+		pf, df, of = filepath.Join(dir, "p file \u00e9.yaml"), filepath.Join(dir, "d  file.jsonld"), filepath.Join(dir, "o ut.json")
+	}
 	os.WriteFile(pf, []byte(h.Profile), 0644)
 	os.WriteFile(df, []byte(h.Data), 0644)
 	t0 := time.Now()
@@ -125,8 +132,19 @@ func implCli(h caseHead, raw []byte) map[string]any {
 		case "big":
 			p = strings.Repeat("Z", 1<<20)
 			prior = &p
+		case "symlink-dangling":
+			os.Symlink(filepath.Join(dir, "target.json"), of)
+		case "symlink-existing":
+			p = strings.Repeat("L", len(lib)+123)
+			os.WriteFile(filepath.Join(dir, "target.json"), []byte(p), 0644)
+			os.Symlink(filepath.Join(dir, "target.json"), of)
+			prior = &p
+		case "is-data-file":
+			of = df
+			p = h.Data
+			prior = &p
 		}
-		if prior != nil {
+		if prior != nil && ch.Prior != "symlink-existing" && ch.Prior != "is-data-file" {
 			os.WriteFile(of, []byte(*prior), 0644)
 		}
 	}
@@ -148,6 +166,7 @@ func implCli(h caseHead, raw []byte) map[string]any {
 		args = args[:1]
 	}
 	cmd := exec.Command(bin, args...)
+	cmd.Env = append(os.Environ(), "ACV_X=expanded")
 	var so, se bytes.Buffer
 	cmd.Stdout, cmd.Stderr = &so, &se
 	done := make(chan error, 1)
@@ -163,7 +182,7 @@ func implCli(h caseHead, raw []byte) map[string]any {
 				exit = -1
 			}
 		}
-	case <-time.After(120 * time.Second):
+	case <-time.After(callDeadline(120)):
 		cmd.Process.Kill()
 		exit = -9
 	}
